@@ -207,6 +207,18 @@ static bool verify_forest(vr::Runner &R, const parmcb::ForestIndex<Graph> &fi, c
         if (onf) { ++forest_edges; if (!uf.unite(el.e[i].first, el.e[i].second)) { R.violation({site, "forest-cyclic", c, "edges reported on the forest contain a cycle"}); return false; } }
     }
     if (forest_edges != n - comps) { R.violation({site, "forest-size", c, std::to_string(forest_edges) + " forest edges, a spanning forest has " + std::to_string(n - comps)}); return false; }
+    // the lookups return references: two results that are alive at the same time must both stay right (this is how
+    // comparators such as forest_index(a) < forest_index(b) and std::minmax(fi(a), fi(b)) use the class)
+    for (int i = 0; i < m; ++i) for (int j = 0; j < m; ++j) {
+        if (i == j) continue;
+        const auto &ri = fi(b.edges[i]); const auto &rj = fi(b.edges[j]);
+        if (ri == rj || !(fi(ri).get_property() == b.edges[i].get_property()) || !(fi(rj).get_property() == b.edges[j].get_property())) {
+            R.violation({site, "forest-live-references", c, "two edge -> index results held at the same time do not both stay valid (edges #" + std::to_string(i) + " and #" + std::to_string(j) + ")"}); return false; }
+        const Edge &ea = fi((std::size_t) ri); const Edge &eb = fi((std::size_t) rj);
+        if (!(ea.get_property() == b.edges[i].get_property()) || !(eb.get_property() == b.edges[j].get_property())) {
+            R.violation({site, "forest-live-references", c, "two index -> edge results held at the same time do not both stay valid"}); return false; }
+        if (m > 12 && j > i + 3) break;       // large graphs: neighbouring pairs only
+    }
     return true;
 }
 
